@@ -474,7 +474,8 @@ where
 				None => None,
 			};
 			let batch = batch.build()?;
-			let id = self.id_manager.next_request_id();
+			// Every entry takes an id of its own, none of them is handed out to a later call.
+			let id = self.id_manager.next_request_ids(batch.len() as u64);
 			let id_range = generate_batch_id_range(id, batch.len() as u64)?;
 
 			let mut batch_request = Batch::with_capacity(batch.len());
